@@ -37,9 +37,9 @@ cp "$DEMO" examples/seeded_demo.rs
 if cargo run -q --offline --example seeded_demo >$OUT/demo$N.log 2>&1; then res "$R" demo_fails_patched false; else res "$R" demo_fails_patched true; fi
 rm -f examples/seeded_demo.rs
 # harness copy against the patched worktree
-mkdir -p "$MH"; rsync -a --delete --exclude target /verif/harness/ "$MH/harness/"
+mkdir -p "$MH"; rsync -a --delete --exclude target /tmp/harness_baseline/harness/ "$MH/harness/"
 sed -i "s#reval = { path = \"/repo\" }#reval = { path = \"$WT\" }#" "$MH/harness/Cargo.toml"
-cp /verif/KNOWN_FINDINGS.txt "$MH/"; rsync -a /verif/regressions "$MH/"
+cp /tmp/harness_baseline/KNOWN_FINDINGS.txt "$MH/"; rsync -a /tmp/harness_baseline/regressions "$MH/"
 TGT="${SEEDCHECK_TARGET:-/tmp/mh/target}"
 export CARGO_TARGET_DIR="$TGT"
 if ! (cd "$MH/harness" && cargo build -q --release --offline --bins >"$OUT/hbuild$N.log" 2>&1); then
